@@ -113,8 +113,9 @@ static const TypeOps* Lookup(const std::string& tid, JsonOut& o) {
 static void EmitKind(JsonOut& o, const char* key, const std::string& kind, bool bounded, uint64_t limit) {
   o.key(key);
   o.begin_obj();
-  o.kv_str("k", kind == "fdburst" ? "fd" : kind);      // a bursty pipe is still an FdReader
+  o.kv_str("k", (kind == "fdburst" || kind == "fdintr") ? "fd" : kind);      // a bursty / interrupted pipe is still an FdReader
   if (kind == "fdburst") o.kv_bool("burst", true);
+  if (kind == "fdintr") o.kv_bool("intr", true);
   o.kv_bool("b", bounded);
   o.kv_num("lim", bounded ? static_cast<long long>(limit < 1073741823ull ? limit : 1073741823ull) : 1073741823ll);
   o.end_obj();
